@@ -113,8 +113,10 @@ def check_C01(c):
     deep = []
     for name, f in shapes.items():
         for n in depths:
-            if name in ("assign", "tern", "notin", "lparen") and n > 20000:
-                continue  # quadratic word-operator probe (DESIGN §9): bounded, but minutes per input
+            if name in ("assign", "tern", "notin", "lparen", "names") and n > 20000:
+                # quadratic word-operator probe (DESIGN §9): bounded, but minutes to an hour per input — `names` renders as
+                # `a;a;a;…`, a text without blanks or brackets, which the tokenizer probes to its end once per name
+                continue
             deep.append(expr_req(f(n)))
             deep.append("DESCR\t" + hx(f(n)))
     deep_ex = ["CTX\tc\t()"] + ["EXEC\tc\t" + r.split("\t")[1] for r in deep[::2]]
